@@ -361,6 +361,8 @@ def units(tier, seed):
     add('hyperu(3/2,1/2)/D23,P1,()', 'h_unary', fname='hyperu', D=23, P=1, shape=(), params={'a': '3/2', 'b': '1/2'})
     for n in range(-3, 6):
         add('pow_int(%d)/D%d,P2' % (n, powD), 'h_unary', fname='powi', D=powD, P=2, shape=(2,), params={'n': n})
+    for n in (6, 7, 8, 10, 12, 13, -4, -6):     # (larger exponents: square-and-multiply style shortcuts)
+        add('pow_int(%d)/D3,P2' % n, 'h_unary', fname='powi', D=3, P=2, shape=(), params={'n': n})
     for n in ([3, 4] if tier == 'quick' else [0, 1, 2, 3, 4, 6]):
         add('pow_npint(%d)/D%d,P1' % (n, powD), 'h_unary', fname='powi_np', D=powD, P=1, shape=(), params={'n': n})
     for r in (['1/2', '5/2', '-3/2'] if tier == 'quick' else ['1/2', '5/2', '-3/2', '1/3', '7/4', '-1/2']):
@@ -370,7 +372,7 @@ def units(tier, seed):
             D=min(powD, 5), P=2, shape=(), params={'r': r})
     # complex coefficients (where NumPy/SciPy support them and the oracle is rational in the atoms)
     cD, cP = (3, 1) if tier == 'quick' else (6, 2)
-    for fname in ['exp', 'expm1', 'log', 'log1p', 'sqrt', 'sin', 'cos', 'sinh', 'cosh', 'reciprocal', 'square']:
+    for fname in ['exp', 'expm1', 'log', 'log1p', 'sqrt', 'sin', 'cos', 'sinh', 'cosh', 'reciprocal', 'square', 'tan', 'tanh']:
         add('%s/complex/D%d,P%d' % (fname, cD, cP), 'h_unary', fname=fname, D=cD, P=cP, shape=(2,) if tier != 'quick' else (), cplx=True)
     for n in (-2, 2, 3, 4):
         add('pow_int(%d)/complex/D%d,P%d' % (n, cD, cP), 'h_unary', fname='powi', D=cD, P=cP, shape=(), params={'n': n}, cplx=True)
